@@ -210,7 +210,7 @@ func (e *fmEngine) Generate(seed uint64, tier string, run int) (json.RawMessage,
 		case "setquery":
 			if len(lastQueries) > 0 && rg.Chance(0.4) {
 				op = kernel.Pick(rg, lastQueries) // back and forth between a few queries
-				if len(op.Families) > 0 && rg.Chance(0.3) {
+				if len(op.Families) > 0 && rg.Chance(0.45) {
 					// the same query spelled differently (case, blanks): family names are compared after
 					// normalisation, generic keywords are not
 					fams := append([]string(nil), op.Families...)
@@ -221,7 +221,11 @@ func (e *fmEngine) Generate(seed uint64, tier string, run int) (json.RawMessage,
 			} else {
 				for i := rg.Range(0, 3); i > 0; i-- {
 					if rg.Chance(0.2) {
-						op.Families = append(op.Families, kernel.Pick(rg, fmGenerics))
+						g := kernel.Pick(rg, fmGenerics)
+						if rg.Chance(0.3) {
+							g = respell(rg, g) // "Serif", "serif ": not the keyword any more, still the same normalised name
+						}
+						op.Families = append(op.Families, g)
 					} else {
 						op.Families = append(op.Families, kernel.Pick(rg, queryPool))
 					}
